@@ -109,7 +109,9 @@ fn worker(args: &[String]) -> i32 {
     let ctx = exec::Ctx {
         bin: PathBuf::from(arg_val(args, "--bin").unwrap_or_else(|| die("--bin"))),
         shim: PathBuf::from(arg_val(args, "--shim").unwrap_or_else(|| die("--shim"))),
-        dir: PathBuf::from(format!("{out_dir}/s{name}")),
+        // fixed-width names: a tool that echoes a path on stdout must produce writes of the same length
+        // whichever shard runs the scenario (the digests compare write sizes)
+        dir: PathBuf::from(format!("{out_dir}/s{:0>4}", name)),
     };
     let mut lines = std::io::BufWriter::new(std::fs::OpenOptions::new().create(true).append(true).open(format!("{out_dir}/w{name}.jsonl")).unwrap());
     let progress_path = format!("{out_dir}/w{name}.progress");
